@@ -494,3 +494,23 @@ PLANS["C17"] = dict(
                                                                     "CONSTANT WaitDelay = 1", "CONSTANT HoldFor = 6", "CONSTANT Bound = 3", "POSTCONDITION AllConsumed", "CHECK_DEADLOCK FALSE"))),
     ],
 )
+
+# ------------------------------------------------------------------ C13
+PLANS["C13"] = dict(
+    level_text="Loads(type, name, directory kind, entries) is a TLA+ predicate conjoining the clauses of the statement (known type, plain name, real "
+               "directory, non-empty, every entry a regular file of valid certificates, tsa: self-signed roots); TLC enumerates all store types x "
+               "names (plain, dotted, with separator, '.', '..', empty) x directory kinds (missing, directory, symlinked directory, regular file) x "
+               "entry sequences over ten entry kinds and checks the whole-store refusal; every case is built as a real tree under dir.NewSysFS "
+               "with decoy certificates in sibling stores, type directories, nested directories and truststore/x509 itself, loaded through the "
+               "real GetCertificates, comparing acceptance, the exact thumbprint multiset and that no partial set is returned.",
+    level_note="Trusted: TLC, crypto/x509 and notation-core-go certificate file parsing. Permission-denied situations are not generated (root).",
+    rule="cases = InputSpace of MC_TrustStoreFS_C13; non-trivial = the store must be refused",
+    exhaustive=True,
+    phases=[dict(
+        name="stores",
+        gen=dict(module="MC_TrustStoreFS_C13", cfg=lambda tier, seed: mc_cfg(["Inv_C13", "Inv_Emit"], consts=["MaxEntries = 3" if tier == "thorough" else "MaxEntries = 2"]),
+                 select=slicer(40000)),
+        drive=dict(driver="truststore-fs"),
+        validate=dict(module="Trace_TrustStoreFS", cfg=trace_cfg()),
+    )],
+)
